@@ -13,11 +13,11 @@ import (
 type Expr interface{ String() string }
 
 type (
-	Ident  struct{ Name string }
-	IntLit struct{ V string }
+	Ident   struct{ Name string }
+	IntLit  struct{ V string }
 	BoolLit struct{ V bool }
-	StrLit struct{ V string }
-	Call   struct {
+	StrLit  struct{ V string }
+	Call    struct {
 		Fn   string
 		Args []Expr
 	}
@@ -300,6 +300,22 @@ func (ps *parser) postfix() (Expr, error) {
 				return nil, err
 			}
 			e = x
+		} else if t.text == "[" {
+			// type literal []T or [N]T (argument of mem/fresh/any/istype)
+			pre := "["
+			for !ps.isOp("]") {
+				if ps.peek().kind == "eof" {
+					return nil, fmt.Errorf("unterminated type literal in %q", ps.src)
+				}
+				pre += ps.next().text
+			}
+			ps.next()
+			pre += "]"
+			inner, err := ps.unary()
+			if err != nil {
+				return nil, err
+			}
+			return &Ident{Name: pre + inner.String()}, nil
 		} else {
 			return nil, fmt.Errorf("unexpected %q at %d in %q", t.text, t.pos, ps.src)
 		}
